@@ -14,6 +14,8 @@ pub struct Query {
     pub start: usize,
     pub api: u8, // 0 find_from, 1 find_from_ascii (ASCII hay only), 2 pikevm
     pub take: usize,
+    /// which of the case's regexes (0 = flags, 1 = flags2) the query goes to
+    pub which: u8,
 }
 
 pub fn gen_queries(src: &mut Src, alpha: &[u32], node: &Node, fl: Fl, n: u32) -> Vec<Query> {
@@ -25,13 +27,13 @@ pub fn gen_queries(src: &mut Src, alpha: &[u32], node: &Node, fl: Fl, n: u32) ->
             let start = gen_start(src, &hay);
             let api = if hay.is_ascii() { src.below(7) as u8 } else { *src.pick(&[0u8, 2, 3, 4, 5]) };
             let take = *src.pick(&[usize::MAX, usize::MAX, 0, 1, 2]);
-            Query { hay, start, api, take }
+            Query { hay, start, api, take, which: 0 }
         })
         .collect()
 }
 
 pub fn queries_json(qs: &[Query]) -> Value {
-    Value::Array(qs.iter().map(|q| json!({"hay": q.hay, "start": q.start, "api": q.api, "take": if q.take == usize::MAX { -1 } else { q.take as i64 }})).collect())
+    Value::Array(qs.iter().map(|q| json!({"hay": q.hay, "start": q.start, "api": q.api, "which": q.which, "take": if q.take == usize::MAX { -1 } else { q.take as i64 }})).collect())
 }
 
 pub fn queries_from(v: &Value) -> Vec<Query> {
@@ -42,6 +44,7 @@ pub fn queries_from(v: &Value) -> Vec<Query> {
                     hay: q["hay"].as_str().unwrap_or("").to_string(),
                     start: q["start"].as_u64().unwrap_or(0) as usize,
                     api: q["api"].as_u64().unwrap_or(0) as u8,
+                    which: q["which"].as_u64().unwrap_or(0) as u8,
                     take: match q["take"].as_i64().unwrap_or(-1) {
                         -1 => usize::MAX,
                         n => n as usize,
@@ -119,7 +122,104 @@ pub fn gen_case(src: &mut Src, tier: Tier) -> Case {
     c
 }
 
+/// Two regexes from the same pattern under different flag sets (legacy i vs iu/iv), queried alternately: state that
+/// leaks between *different* Regex objects (a process-wide memo) makes a result depend on which regex ran before.
+pub fn gen_two(src: &mut Src, tier: Tier) -> Case {
+    let alpha: Vec<u32> = src.pick(&[&[0x61u32, 0x41, 0x73, 0x53, 0x17F][..], &[0x6B, 0x4B, 0x212A, 0x61, 0x41][..], &[0x3C3, 0x3C2, 0x3A3, 0xDF, 0x1E9E][..], &[0xE9, 0xC9, 0x61, 0x41, 0x69, 0x49, 0x130, 0x131][..]]).to_vec();
+    let fl = Fl { i: true, m: false, s: src.chance(1, 2), mode: Mode::Legacy };
+    let fl2 = Fl { mode: *src.pick(&[Mode::U, Mode::V]), ..fl };
+    let mut cfg = GenCfg::full(fl, alpha.clone());
+    cfg.max_depth = 3;
+    cfg.mods = false;
+    cfg.props = false;
+    cfg.classset = false;
+    cfg.raw_escapes = false;
+    let core = match src.below(3) {
+        0 => Node::Cat(vec![Node::Group { name: None, body: Box::new(Node::Lit(gen_char(src, &cfg))) }, Node::BackRef(0)]),
+        1 => Node::Cat(vec![Node::Group { name: None, body: Box::new(Node::Dot) }, gen_node(src, &cfg, 2), Node::BackRef(0)]),
+        _ => gen_pattern(src, &cfg),
+    };
+    let pat = Printer::print(&core, Mode::Legacy);
+    let n = src.range(4, if tier == Tier::Quick { 12 } else { 20 });
+    let mut qs = gen_queries(src, &alpha, &core, fl, n);
+    for q in qs.iter_mut() {
+        q.which = src.below(2) as u8;
+        if q.api == 1 || q.api == 6 {
+            q.api = 0;
+        }
+    }
+    Case { pat, flags: fl.text(), hay: String::new(), hay16: vec![], start: 0, x: json!({ "queries": queries_json(&qs), "flags2": fl2.text() }) }
+}
+
 pub fn check(case: &Case, l: &mut Local) -> Verdict {
+    if case.x.get("flags2").is_some() {
+        return check_two(case, l);
+    }
+    check_one(case, l)
+}
+
+fn check_two(case: &Case, l: &mut Local) -> Verdict {
+    let fls = [Fl::parse(&case.flags), Fl::parse(case.x["flags2"].as_str().unwrap_or(""))];
+    let qs = queries_from(&case.x["queries"]);
+    let mut res = vec![];
+    for f in fls {
+        match compile(&case.pat, f, false) {
+            Ok(r) => res.push(r),
+            Err(e) if is_infra_err(&e) => return Verdict::Skip("compile_infra"),
+            Err(_) => return Verdict::Skip("rejected"),
+        }
+    }
+    // reference: every query on a freshly compiled regex, in forward order
+    let mut fresh: Vec<Out> = vec![];
+    for q in &qs {
+        let f = match compile(&case.pat, fls[q.which as usize % 2], false) {
+            Ok(r) => r,
+            Err(_) => return Verdict::Skip("rejected"),
+        };
+        let o = run_query(&f, q);
+        if o.is_cut() {
+            return Verdict::Skip("cut_by_fuel");
+        }
+        fresh.push(o);
+    }
+    let mut buf = String::with_capacity(64);
+    for pass in 0..3 {
+        // forward, reverse, and "all queries of regex 1 first": the predecessor of each query changes
+        let mut order: Vec<usize> = (0..qs.len()).collect();
+        match pass {
+            1 => order.reverse(),
+            2 => order.sort_by_key(|i| 1 - qs[*i].which as i32),
+            _ => {}
+        }
+        for i in order {
+            buf.clear();
+            buf.push_str(&qs[i].hay);
+            let o = run_query_on(&res[qs[i].which as usize % 2], &qs[i], &buf);
+            if o.is_cut() {
+                return Verdict::Skip("cut_by_fuel");
+            }
+            if o != fresh[i] {
+                return Verdict::Fail(format!(
+                    "query {} ({:?}, flags {}) gives {} here but {} when it ran right after a fresh compile in forward order (pass {}): a search depends on what was searched before, across Regex objects",
+                    i,
+                    qs[i],
+                    fls[qs[i].which as usize % 2].text(),
+                    o.show(),
+                    fresh[i].show(),
+                    pass
+                ));
+            }
+        }
+    }
+    let any = fresh.iter().any(|o| matches!(o, Out::Ms(v) if !v.is_empty()));
+    if any {
+        l.class("some_query_matched");
+    }
+    let both = qs.iter().any(|q| q.which == 0) && qs.iter().any(|q| q.which == 1);
+    Verdict::Pass { nontrivial: both && any && qs.len() >= 3 }
+}
+
+fn check_one(case: &Case, l: &mut Local) -> Verdict {
     let fl = Fl::parse(&case.flags);
     let qs = queries_from(&case.x["queries"]);
     let re = match compile(&case.pat, fl, false) {
@@ -232,13 +332,16 @@ pub fn check(case: &Case, l: &mut Local) -> Verdict {
 }
 
 pub static V: Variant = Variant { name: "history_independence", choice_len: 500, gen: gen_case, check };
+pub static V2: Variant = Variant { name: "two_regexes_interleaved", choice_len: 500, gen: gen_two, check };
 
 pub fn variants() -> Vec<&'static Variant> {
-    vec![&V]
+    vec![&V, &V2]
 }
 
 pub fn run(ctx: &Ctx) -> i32 {
     ctx.run_variant(&V, ctx.scale(60_000, 1_000_000));
+    // one shard at a time for this variant would hide nothing: the shards share the process, which is the point
+    ctx.run_variant(&V2, ctx.scale(120_000, 2_000_000));
     // (c) threads: separate binary (it needs Regex: Sync to compile at all)
     let exe = std::env::current_exe().ok().and_then(|p| p.parent().map(|d| d.join("c19threads")));
     let rounds = ctx.scale(3_000, 60_000);
@@ -285,7 +388,7 @@ pub fn run(ctx: &Ctx) -> i32 {
     }
     ctx.finish(
         "exploration",
-        "(a) compile-time probe crate asserting Regex, Match, Error: Send + Sync (built before this check; a build failure is the violation). (b) stateful PBT: generated regex x generated history of 3-20 queries (haystack, start, entry point, how many matches are pulled before the iterator is dropped); each query on the long-lived Regex (forward and reverse order, plus two live interleaved iterators) must equal its result on a freshly compiled Regex, and the Debug dump of the whole CompiledRegex must be byte-identical before and after. (c) 2-16 threads sharing &Regex / clones run generated shares of the query multiset in generated orders with generated yields; every result must equal the sequential one. Non-trivial (b) = history >= 3 queries, >= 2 distinct haystacks, an iterator dropped mid-way, some match; (c) = >= 4 threads and some match.",
+        "(a) compile-time probe crate asserting Regex, Match, Error: Send + Sync (built before this check; a build failure is the violation). (b) stateful PBT: generated regex x generated history of 3-20 queries (haystack, start, entry point, how many matches are pulled before the iterator is dropped); each query on the long-lived Regex (forward and reverse order, plus two live interleaved iterators) must equal its result on a freshly compiled Regex (a second variant keeps TWO regexes of the same pattern under legacy-i and iu/iv flags and interleaves their queries in three different orders, so state leaking between different Regex objects shows as order dependence), and the Debug dump of the whole CompiledRegex must be byte-identical before and after. (c) 2-16 threads sharing &Regex / clones run generated shares of the query multiset in generated orders with generated yields; every result must equal the sequential one. Non-trivial (b) = history >= 3 queries, >= 2 distinct haystacks, an iterator dropped mid-way, some match; (c) = >= 4 threads and some match.",
         &["(c) samples only the schedules the OS produces: the code has no synchronisation for a schedule-controlling tool to steer; safety rests on (a)+(b)", "fuel hook"],
     )
 }
